@@ -248,6 +248,9 @@ func vScenarioC01(rc *runCtx) {
 	rc.w.Run(x.finished)
 	rep := x.report()
 	vCheckFidelity(rc, x, rep, before, true)
+	if rc.job.Trace && rc.res.Class != "ok" {
+		x.dumpWire(rc, 1500)
+	}
 }
 
 // vCheckFidelity is the C01 oracle: liveness (both sides report success, fault-free case only)
@@ -262,9 +265,21 @@ func vCheckFidelity(rc *runCtx, x *xferWorld, rep *xferReport, before vSnap, req
 		rc.res.Scenario["cfg_binary"] = rep.cfg["binary"]
 	}
 	rc.res.Scenario["tunnel_used"] = rep.tunnelUsed
+	if !x.paused {
+		for _, m := range append(append([]vMsg{}, rep.clientMsgs...), rep.serverMsgs...) {
+			if m.Typ == "DATA" && m.Payload == "=" {
+				rc.violate("lone-pad", "C01:lone-pad-chunk", "a data chunk consisting of a lone '=' was sent although nobody paused: the receiver takes it for the keep-alive marker and drops it")
+				return
+			}
+		}
+	}
 	hung := !rep.serverExited || (x.filter != nil && x.filter.IsTransferringFiles())
 	if requireSuccess {
 		if rc.w.StepCap {
+			return
+		}
+		if hung && x.slowNotHung() {
+			rc.inconclusive("simulated-time cap reached while data was still flowing (slow configuration, not a hang)")
 			return
 		}
 		if hung {
@@ -273,7 +288,18 @@ func vCheckFidelity(rc *runCtx, x *xferWorld, rep *xferReport, before vSnap, req
 			return
 		}
 		if !rep.clientOK || !rep.serverOK {
-			rc.violate("no-success", "C01:no-success", "fault-free transfer did not succeed: client ok=%v fail=%q upload err=%v immediate err=%v; server ok=%v exit=%d fail=%q tail=%q",
+			why := rep.serverFail
+			if why == "" {
+				why = rep.clientFail
+			}
+			if i := strings.IndexByte(why, '\n'); i >= 0 {
+				why = why[:i]
+			}
+			sig := "C01:no-success:" + vNormMsg(why)
+			if x.o.srvWindows && rep.tunnelUsed {
+				sig += " [windows-server+tunnel]"
+			}
+			rc.violate("no-success", sig, "fault-free transfer did not succeed: client ok=%v fail=%q upload err=%v immediate err=%v; server ok=%v exit=%d fail=%q tail=%q",
 				rep.clientOK, vClip(rep.clientFail, 300), x.uploadErr, x.uploadErrImm, rep.serverOK, rep.serverExit, vClip(rep.serverFail, 300), rep.serverText)
 			return
 		}
@@ -344,4 +370,25 @@ func vAllDigits(s string) bool {
 		}
 	}
 	return true
+}
+
+// vNormMsg makes an error text usable as a stable signature: digits and paths removed.
+func vNormMsg(s string) string {
+	var b strings.Builder
+	for _, f := range strings.Fields(s) {
+		if strings.Contains(f, "/") && len(f) > 20 {
+			f = "<path>"
+		}
+		for _, c := range f {
+			if c >= '0' && c <= '9' {
+				continue
+			}
+			b.WriteRune(c)
+		}
+		b.WriteByte(' ')
+		if b.Len() > 90 {
+			break
+		}
+	}
+	return strings.TrimSpace(b.String())
 }
